@@ -181,3 +181,30 @@ func VerifH_C06_revision_gate() {
 		verif.Assert(ps.ClientsCount() == 0 && ps.Clients().Len() == 0 && len(ps.made) == 0, "no session created")
 	}
 }
+
+// Two servers with different transport sets in one process: each open packet advertises
+// the upgrades of ITS OWN server, whatever the other one handled before.
+func VerifH_C06_two_servers() {
+	mk := func() (*protoServer, bool, bool) {
+		opts := config.DefaultServerOptions()
+		tset := types.NewSet[string](transports.POLLING)
+		enW, enT := verif.Bool(), verif.Bool()
+		if enW {
+			tset.Add(transports.WEBSOCKET)
+		}
+		if enT {
+			tset.Add(transports.WEBTRANSPORT)
+		}
+		opts.SetTransports(tset)
+		return newProtoServer(opts), enW, enT
+	}
+	a, aW, aT := mk()
+	b, bW, bT := mk()
+	recA, recB := &evRec{}, &evRec{}
+	recA.listen(a, "connection", "connection_error")
+	recB.listen(b, "connection", "connection_error")
+	iv, to, mp := a.Opts().PingInterval(), a.Opts().PingTimeout(), a.Opts().MaxHttpBufferSize()
+	c06Check(a, transports.POLLING, "4", 1, iv, to, mp, aW, aT, true, nil, recA)
+	c06Check(b, transports.POLLING, "4", 1, b.Opts().PingInterval(), b.Opts().PingTimeout(), b.Opts().MaxHttpBufferSize(), bW, bT, true, nil, recB)
+	c06Check(a, transports.POLLING, "4", 2, iv, to, mp, aW, aT, true, nil, recA)
+}
